@@ -31,6 +31,38 @@ SIG_BIGDIM = "GMRF.__init__|logdet:dim-above-MAX_DIM_INV"
 SIG_RANK_OTHER = "GMRF.__init__|rank-logdet:other"
 
 
+_STATE = {}
+
+
+def repair_state():
+    """(acc, rk): which of the two proposed repairs the tree under test contains, read off two witnesses:
+    acc -- periodic boundary patches accumulate (fixes/C20_periodic_accumulate.diff);
+    rk  -- repaired GMRF rank rule (fixes/C20_gmrf_rank_rule.diff).  The model variant is chosen accordingly."""
+    if not _STATE:
+        acc = rk = False
+        try:
+            from cuqi.operator import SecondOrderFiniteDifference
+            M = dense(SecondOrderFiniteDifference(2, "periodic").get_matrix())
+            acc = bool(M.shape == (4, 2) and np.array_equal(M, np.array([[-2, 2], [2, -2], [-2, 2], [2, -2]], dtype=float)))
+        except Exception:
+            pass
+        try:
+            g, _ = observe_gmrf(1, 7, "periodic", 0)
+            rk = g is not None and int(g._rank) == 7
+        except Exception:
+            pass
+        _STATE.update(acc=acc, rk=rk)
+    return _STATE["acc"], _STATE["rk"]
+
+
+def acc_state():
+    return repair_state()[0]
+
+
+def cst():
+    return cbool(repair_state()[0])
+
+
 def cbc(bc):
     return BC_COQ.get(bc, "UnknownBC")
 
@@ -39,6 +71,8 @@ def cnodes(nd):
     """nd: JSON form of num_nodes -- int, ["t", ...] for a tuple, ["bad", repr] for anything else"""
     if isinstance(nd, int):
         return "(NInt %s)" % cnat(nd)
+    if nd[0] == "np":                                   # numpy integer scalar / tuple of numpy integers
+        return "(NInt %s)" % cnat(nd[1]) if len(nd) == 2 else "(NTup2 %s %s)" % (cnat(nd[1]), cnat(nd[2]))
     if nd[0] == "t" and len(nd) == 2:
         return "(NTup1 %s)" % cnat(nd[1])
     if nd[0] == "t" and len(nd) == 3:
@@ -51,6 +85,8 @@ def py_nodes(nd):
         return nd
     if nd[0] == "t":
         return tuple(nd[1:])
+    if nd[0] == "np":
+        return np.int64(nd[1]) if len(nd) == 2 else (np.int32(nd[1]), np.int64(nd[2]))
     return {"float": 3.0, "list": [3], "tuple3": (2, 2, 2), "str": "3", "tuple-float": (2.0, 2.0)}[nd[1]]
 
 
@@ -257,6 +293,8 @@ def nd_info(nd):
         return nd[1], False, True
     if nd[0] == "t" and len(nd) == 3:
         return nd[1], True, nd[1] == nd[2]
+    if nd[0] == "np":
+        return (nd[1], False, True) if len(nd) == 2 else (nd[1], True, nd[1] == nd[2])
     return 0, False, False
 
 
@@ -282,11 +320,11 @@ def case_fd(order, nd, bc, dx=None, dx_repr=None):
         if obs is not None and rows is None:
             expr = "false"      # non-integer entries without a grid spacing
         else:
-            expr = "check_fd_z %s %s %s %s" % (cnat(order), cnodes(nd), cbc(bc), copt(rows, czmat))
+            expr = "check_fd_z_st %s %s %s %s %s" % (cst(), cnat(order), cnodes(nd), cbc(bc), copt(rows, czmat))
         model = "option_map fst (fd_op %s %s %s None)" % (cnat(order), cnodes(nd), cbc(bc))
     else:
         dxq = "(Some %s)" % cq(dx)
-        expr = "check_fd_q %s %s %s %s %s %s" % (cnat(order), cnodes(nd), cbc(bc), dxq, cbool(is_pow2(dx)),
+        expr = "check_fd_q_st %s %s %s %s %s %s %s" % (cst(), cnat(order), cnodes(nd), cbc(bc), dxq, cbool(is_pow2(dx)),
                                                 copt(None if obs is None else obs.tolist(), cqmat))
         model = "fd_op %s %s %s %s" % (cnat(order), cnodes(nd), cbc(bc), dxq)
     meta["coq_model"] = model
@@ -307,7 +345,7 @@ def case_prec(order, nd, bc):
     meta = {"op": "prec", "order": order, "nodes": nd, "bc": bc, "refusal": err}
     rows = int_rows(obs) if obs is not None else None
     expr = "false" if (obs is not None and rows is None) else \
-        "check_prec %s %s %s %s" % (cnat(order), cnodes(nd), cbc(bc), copt(rows, czmat))
+        "check_prec_st %s %s %s %s %s" % (cst(), cnat(order), cnodes(nd), cbc(bc), copt(rows, czmat))
     meta["coq_model"] = "prec_op %s %s %s" % (cnat(order), cnodes(nd), cbc(bc))
     if wf:
         fail, sig = oracle_prec(order, bc, n, two_d, obs)
@@ -325,7 +363,7 @@ def case_apply(order, nd, bc, x, y):
     meta = {"op": "apply", "order": order, "nodes": nd, "bc": bc, "x": x, "y": y}
     a, b = int_rows(Dx), int_rows(DTy)
     expr = "false" if a is None or b is None else \
-        "check_apply %s %s %s %s %s %s %s" % (cnat(order), cnodes(nd), cbc(bc), czvec(x), czvec(y), czvec(a), czvec(b))
+        "check_apply_st %s %s %s %s %s %s %s %s" % (cst(), cnat(order), cnodes(nd), cbc(bc), czvec(x), czvec(y), czvec(a), czvec(b))
     meta["coq_model"] = "option_map (fun D => (zmatvec (fst D) %s, zmattvec (nodes_dim %s) (fst D) %s)) (fd_op %s %s %s None)" % (
         czvec(x), cnodes(nd), czvec(y), cnat(order), cnodes(nd), cbc(bc))
     fail, sig = None, ""
@@ -347,6 +385,66 @@ def case_apply(order, nd, bc, x, y):
         sig = "FiniteDifference.__matmul__|%s-order%d-%s" % ("2d" if two_d else "1d", order, bc)
     return Case(expr=expr, meta=meta, cell="apply/fd%d/%s/%s" % (order, "2d" if two_d else "1d", bc),
                 trivial=(bc == "none" or all(v == 0 for v in x)), impl_fail=fail, signature=sig if fail else "")
+
+
+def case_keepalive(order, nd, bc, rng):
+    """history: the operator is used (D@x, D.T@y, D.T@D, a precision operator and a Gaussian field of the same
+    configuration are built, evaluated, their factors read) and is then re-read: its matrix, the vectors handed in and
+    the field's operators must be what they were (nothing is shared or updated in place)"""
+    from cuqi.operator import PrecisionFiniteDifference
+    n, two_d, wf = nd_info(nd)
+    op = build_fd(order, nd, bc, None)
+    M0 = dense(op.get_matrix()).copy()
+    dim = n * n if two_d else n
+    x = np.array([rng.randint(-9, 9) for _ in range(dim)], dtype=float)
+    y = np.array([rng.randint(-9, 9) for _ in range(M0.shape[0])], dtype=float)
+    x0, y0 = x.copy(), y.copy()
+    changed = []
+    a1 = op @ x
+    a1c = a1.copy()
+    op @ (x + 1.0)                  # a different vector of the same shape: an output handed out earlier must not follow
+    if not np.array_equal(a1, a1c):
+        changed.append("D@x returned earlier changed after a later product")
+    t1 = op.T @ y
+    t1c = np.array(t1).copy()
+    op.T @ (y - 2.0)
+    if not np.array_equal(np.array(t1), t1c):
+        changed.append("D.T@y returned earlier changed after a later product")
+    (op.T @ op)
+    P = PrecisionFiniteDifference(py_nodes(nd), bc_type=bc, order=order)
+    P0 = dense(P.get_matrix()).copy()
+    P @ x
+    g = None
+    if bc in ("zero", "periodic", "neumann") and dim >= 2:
+        g, _ = observe_gmrf(2 if two_d else 1, dim, bc, order, prec=2.0, mean=x.copy())
+    if g is not None:
+        Pg0 = dense(g._prec_op.get_matrix()).copy()
+        Dg0 = dense(g._diff_op.get_matrix()).copy()
+        v1 = float(np.ravel(g.logpdf(y[:dim] if len(y) >= dim else x))[0])
+        g.sqrtprec; g.sqrtprecTimesMean
+        try:
+            g.gradient(x)
+        except Exception:
+            pass
+        v2 = float(np.ravel(g.logpdf(y[:dim] if len(y) >= dim else x))[0])
+        if not (v1 == v2 or (math.isnan(v1) and math.isnan(v2))):
+            changed.append("GMRF.logpdf gives %r then %r on the same input" % (v1, v2))
+        if not np.array_equal(dense(g._prec_op.get_matrix()), Pg0) or not np.array_equal(dense(g._diff_op.get_matrix()), Dg0):
+            changed.append("the field's operators changed by evaluating it")
+    a2 = op @ x
+    M1 = dense(op.get_matrix())
+    if not np.array_equal(M0, M1):
+        changed.append("get_matrix() changed by use: %s -> %s" % (M0.tolist(), M1.tolist()))
+    if not np.array_equal(x, x0) or not np.array_equal(y, y0):
+        changed.append("an input vector was modified in place")
+    if not np.array_equal(a1, a1c) or not np.array_equal(a1c, a2):
+        changed.append("D@x returned earlier changed / is not reproducible")
+    if not np.array_equal(dense(P.get_matrix()), P0):
+        changed.append("precision matrix changed by use")
+    rows = int_rows(M1)
+    expr = "false" if rows is None else "check_fd_z_st %s %s %s %s (Some %s)" % (cst(), cnat(order), cnodes(nd), cbc(bc), czmat(rows))
+    return Case(expr=expr, meta={"op": "keepalive", "order": order, "nodes": nd, "bc": bc}, cell="keepalive/fd%d/%s/%s" % (order, "2d" if two_d else "1d", bc),
+                impl_fail="; ".join(changed) or None, signature="FiniteDifference|state-changed-by-use" if changed else "")
 
 
 def gmrf_class_signature(pd, dim, bc, order):
@@ -380,7 +478,7 @@ def gmrf_cases(pd, dim, bc, order, rng, nvec=2, big=False):
         ok_int = P is not None and D is not None and int(g._rank) == g._rank
         obs_init = (int(g._rank), P, D)
     enc_init = lambda t: "(%s, %s, %s)" % (cnat(t[0]), czmat(t[1]), czmat(t[2]))
-    expr = "check_gmrf_init %s %s" % (args, copt(obs_init, enc_init)) if ok_int else "false"
+    expr = "check_gmrf_init_st %s %s %s %s" % (cst(), cbool(repair_state()[1]), args, copt(obs_init, enc_init)) if ok_int else "false"
     m = dict(base, op="gmrf_init", refusal=err, prec=prec,
              coq_model="option_map (fun g => (g_rank g, g_prec g)) (gmrf_init %s)" % args)
     fail, sig = None, ""
@@ -395,7 +493,7 @@ def gmrf_cases(pd, dim, bc, order, rng, nvec=2, big=False):
     Pd = dense(g._prec_op.get_matrix())
     # (b) sqrtprec^T sqrtprec = prec * P  (up to the sqrt(eps) shift the code adds for periodic / neumann)
     R = dense(g.sqrtprec)
-    expr = "check_sqrtprec %s %s %s" % (args, cq(prec), cqmat(R.tolist()))
+    expr = "check_sqrtprec_st %s %s %s %s" % (cst(), args, cq(prec), cqmat(R.tolist()))
     fail = None
     if R.shape != Pd.shape or np.abs(R.T @ R - prec * Pd).max() > 1e-6 * prec * max(1.0, np.abs(Pd).max()):
         fail = "sqrtprec^T sqrtprec differs from prec * P by %r" % (np.abs(R.T @ R - prec * Pd).max() if R.shape == Pd.shape else R.shape,)
@@ -412,14 +510,18 @@ def gmrf_cases(pd, dim, bc, order, rng, nvec=2, big=False):
     if int(g._rank) != true_rank:
         fail = "GMRF(dim=%d, %s, order %d, %d-d): reported rank %d, the precision has rank %d; reported logdet %r, pseudo-log-determinant %r" % (
             dim, bc, order, pd, g._rank, true_rank, logdet, true_logdet)
-    elif not finite or abs(logdet - true_logdet) > 1e-8 * (1 + abs(true_logdet)):
+    elif not finite or abs(logdet - true_logdet) > 1e-9 * (1 + abs(true_logdet)):
         fail = "GMRF(dim=%d, %s, order %d, %d-d): reported logdet %r, the precision has pseudo-log-determinant %r (rank %d)" % (
             dim, bc, order, pd, logdet, true_logdet, true_rank)
     sig = gmrf_class_signature(pd, dim, bc, order) if fail else ""
-    if fail and big and sig == SIG_RANK_OTHER and bc in ("periodic", "neumann"):
-        sig = SIG_BIGDIM
+    if fail and big and bc in ("periodic", "neumann") and (sig == SIG_RANK_OTHER or int(g._rank) == true_rank):
+        sig = SIG_BIGDIM          # the rank is right (or not in a rank class): only the regularised log-determinant is off
     e_obs = math.exp(logdet) if finite and logdet < 600 else 0.0
-    expr = "check_true_rank %s %s && check_true_expdet %s %s" % (args, cnat(int(g._rank)), args, cq(e_obs))
+    expr = "check_true_rank_st %s %s %s && check_true_expdet_st %s %s %s" % (cst(), args, cnat(int(g._rank)), cst(), args, cq(e_obs))
+    if repair_state()[1] and order == 2 and bc == "neumann":
+        # repaired rank rule: nullity 2 (2-d: 4); the model's exact pseudo-determinant covers nullity <= 1 only, the
+        # log-determinant of this class is then checked by the eigenvalue oracle above alone
+        expr = "check_true_rank_st %s %s %s" % (cst(), args, cnat(int(g._rank)))
     out.append(Case(expr=expr, meta=dict(base, op="gmrf_rank_logdet", prec=prec,
                                          coq_model="option_map (fun g => (zrank %s (g_prec g), zdet (g_prec g), pdet1 (g_prec g))) (gmrf_init %s)" % (cnat(dim), args)),
                     cell=cell + "/rank-logdet", kind="TOLERANCE", impl_fail=fail, signature=sig))
@@ -430,17 +532,21 @@ def gmrf_cases(pd, dim, bc, order, rng, nvec=2, big=False):
         out.append(Case(expr="check_expdet_reg %s %s" % (args, cq(e_reg)),
                         meta=dict(base, op="gmrf_expdet_coded", prec=prec, coq_model="gmrf_expdet_reg %s" % args),
                         cell=cell + "/logdet-coded", kind="TOLERANCE"))
-    elif not (order == 2 and (bc == "neumann" or (bc == "periodic" and N <= 2))):
+    elif not (order == 2 and (bc == "neumann" or (bc == "periodic" and N <= 2))) and \
+            not (repair_state()[1] and order == 0 and bc in ("periodic", "neumann")):
         expr = "check_expdet %s %s" % (args, cq(e_obs))
         out.append(Case(expr=expr, meta=dict(base, op="gmrf_expdet_coded", prec=prec, coq_model="gmrf_expdet %s" % args),
                         cell=cell + "/logdet-coded", kind="TOLERANCE"))
     # (e) logpdf evaluates the shifted variable through the precision operator
-    for k in range(nvec):
+    for k in range(nvec + (1 if nvec >= 2 else 0)):
         x = [rng.randint(-6, 6) for _ in range(dim)]
         if k == 0:
             mean = [rng.randint(-3, 3)]
         else:
             mean = [rng.randint(-3, 3) for _ in range(dim)]
+        if k == 2:                      # magnitude sweep: the same kind of vector 2^20 times larger (still exact integers)
+            x = [v * 2 ** 20 for v in x]
+            mean = [v * 2 ** 20 for v in mean]
         gm, _ = observe_gmrf(pd, dim, bc, order, prec=prec, mean=np.array(mean, dtype=float) if len(mean) > 1 else float(mean[0]), big=big)
         mvec = np.array(mean * dim if len(mean) == 1 else mean, dtype=float)
         v0 = float(np.ravel(gm.logpdf(mvec))[0])
@@ -452,7 +558,7 @@ def gmrf_cases(pd, dim, bc, order, rng, nvec=2, big=False):
             q_ref = float(d @ (Pd @ d))
             if abs(q_obs - q_ref) > 1e-9 * (1 + abs(q_ref)):
                 fail = "GMRF.logpdf: -2(logpdf(x)-logpdf(mean))/prec = %r, (x-mean)^T P (x-mean) = %r" % (q_obs, q_ref)
-            expr = "check_gmrf_quad %s %s %s %s" % (args, czvec(x), czvec(mean), cq(q_obs))
+            expr = "check_gmrf_quad_st %s %s %s %s %s" % (cst(), args, czvec(x), czvec(mean), cq(q_obs))
             out.append(Case(expr=expr, meta=dict(base, op="gmrf_quad", prec=prec, x=x, mean=mean), cell=cell + "/logpdf-quad",
                             kind="TOLERANCE", trivial=all(a == 0 for a in d), impl_fail=fail, signature="GMRF.logpdf|quadratic-form" if fail else ""))
     return out
@@ -487,8 +593,8 @@ def mrf_case_from(kind, pd, dim, bc, scale, x, loc):
     meta["refusal"] = err
     fail, sig = None, ""
     if dist is None:
-        expr = ("check_lmrf %s %s %s None None" % (args, czvec(x), czvec(loc))) if kind == "lmrf" else \
-            ("check_cmrf %s %s %s %s None None" % (args, cq(scale), czvec(x), czvec(loc)))
+        expr = ("check_lmrf_st %s %s %s %s None None" % (cst(), args, czvec(x), czvec(loc))) if kind == "lmrf" else \
+            ("check_cmrf_st %s %s %s %s %s None None" % (cst(), args, cq(scale), czvec(x), czvec(loc)))
         if bc in BCS and dim >= 2 and (pd == 1 or N * N == dim):
             fail, sig = "%s(dim=%d, %s, %d-d) is refused (%s)" % (kind.upper(), dim, bc, pd, err), "%s.__init__|refused" % kind.upper()
         return Case(expr=expr, meta=meta, cell=cell, trivial=True, impl_fail=fail, signature=sig)
@@ -503,14 +609,21 @@ def mrf_case_from(kind, pd, dim, bc, scale, x, loc):
     if kind == "lmrf":
         obs = scale * (v0 - v)
         expect = float(np.sum(np.abs(ref)))
-        expr = "check_lmrf %s %s %s (Some %s) %s" % (args, czvec(x), czvec(loc), cq(obs), copt(Drows, czmat))
+        expr = "check_lmrf_st %s %s %s %s (Some %s) %s" % (cst(), args, czvec(x), czvec(loc), cq(obs), copt(Drows, czmat))
         meta["coq_model"] = "lmrf_l1 %s %s %s" % (args, czvec(x), czvec(loc))
     else:
         obs = math.exp(v0 - v)
         expect = float(np.prod(1.0 + (ref / scale) ** 2))
-        expr = "check_cmrf %s %s %s %s (Some %s) %s" % (args, cq(scale), czvec(x), czvec(loc), cq(obs), copt(Drows, czmat))
+        expr = "check_cmrf_st %s %s %s %s %s (Some %s) %s" % (cst(), args, cq(scale), czvec(x), czvec(loc), cq(obs), copt(Drows, czmat))
         meta["coq_model"] = "option_map (cmrf_ratio %s) (mrf_dx %s %s %s)" % (cq(scale), args, czvec(x), czvec(loc))
     meta["observed"] = obs
+    # the value at the location has no data term: it is (number of differences) x (per-difference constant), so it reads
+    # off len(Dx) -- which must be the number of rows of the documented operator
+    per = -(math.log(2.0) + math.log(scale)) if kind == "lmrf" else -(math.log(math.pi) + math.log(scale))
+    if not fail and abs(per) > 1e-6 and (acc_state() or not small_n_periodic(1, bc, N)):
+        if abs(v0 - len(ref) * per) > 1e-9 * (1 + abs(len(ref) * per)):
+            fail = "%s.logpdf(location) = %r, but %d differences x %r = %r" % (kind.upper(), v0, len(ref), per, len(ref) * per)
+            sig = "%s.logpdf|number-of-differences" % kind.upper()
     if not small_n_periodic(1, bc, N):
         if abs(obs - expect) > 1e-9 * (1 + abs(expect)):
             fail = "%s.logpdf (%s, dim %d, %d-d): data term read off logpdf = %r, through the documented differences of x - location = %r" % (
@@ -534,6 +647,14 @@ def run(ctx):
             for n in range(1, N1 + 1):
                 nd = n if n % 3 else ["t", n]
                 cases.append(case_fd(order, nd, bc))
+    # ---- 1b. quick tier: one seeded larger size per (order, BC) in 1-d and 2-d (the thorough tier sweeps them all) ----
+    if not ctx.thorough:
+        for order in (1, 2):
+            for bc in BCS:
+                if order == 2 and bc in ("backward", "none"):
+                    continue
+                cases.append(case_fd(order, rng.randint(N1 + 1, 40), bc))
+                cases.append(case_fd(order, ["t"] + [rng.randint(N2 + 1, 9)] * 2, bc))
     # ---- 2. grid spacing ------------------------------------------------------------------------------
     dyadic = [0.5, 2.0, 0.25, 4, 0.125, 2]
     other = [0.1, 3, 0.3, 1e-3, 7.5, 10]
@@ -548,6 +669,26 @@ def run(ctx):
         cases.append(case_fd(order, 3, "zero", dx=0))
         cases.append(case_fd(order, 3, "zero", dx=0.0))
         cases.append(case_fd(order, ["t", 2, 2], "zero", dx=0.5))
+    # ---- 2b. grid spacing over 60 binary orders of magnitude (exact: division by a power of two) ---------------
+    for order in (1, 2):
+        for bc in BCS:
+            if order == 2 and bc in ("backward", "none"):
+                continue
+            for k in (-40, -17, 23):
+                cases.append(case_fd(order, 5, bc, dx=2.0 ** k))
+    # ---- 2c. declaration styles of num_nodes (numpy integers) ------------------------------------------------
+    for order in (1, 2):
+        for bc in ("zero", "periodic", "neumann"):
+            cases.append(case_fd(order, ["np", 4], bc))
+            cases.append(case_fd(order, ["np", 3, 3], bc))
+            cases.append(case_prec(order, ["np", 3, 3], bc))
+    # ---- 2d. histories: operators re-read after use (keep-alive) --------------------------------------------
+    for order in (1, 2):
+        for bc in BCS:
+            if order == 2 and bc in ("backward", "none"):
+                continue
+            for nd in (5, ["t", 3, 3]):
+                cases.append(case_keepalive(order, nd, bc, rng))
     # ---- 3. two dimensions ----------------------------------------------------------------------------
     for order in (1, 2):
         for bc in allbc:
@@ -634,6 +775,9 @@ def rebuild(meta, rng=None):
         return [case_fd(meta["order"], meta["nodes"], meta["bc"], dx=dx)]
     if op == "prec":
         return [case_prec(meta["order"], meta["nodes"], meta["bc"])]
+    if op == "keepalive":
+        import random as _r
+        return [case_keepalive(meta["order"], meta["nodes"], meta["bc"], _r.Random(0))]
     if op == "apply":
         return [case_apply(meta["order"], meta["nodes"], meta["bc"], meta["x"], meta["y"])]
     if op and op.startswith("gmrf"):
